@@ -504,6 +504,58 @@ pub fn mirror_reuse_family(run: &Run) {
     }
 }
 
+/// The receiver sits DIRECTLY on a rendezvous channel (capacity 0): the producer's thread blocks inside `Bdd::node` at every
+/// created node until the receiver takes the message. Which polls come back empty depends on timing (a poll that arrives
+/// before the producer has reached its next `send` finds nothing) - what does not: every poll leaves the receiver with a
+/// prefix of the producer's table, 'found' iff the handle is present afterwards, and a receiver that keeps polling gets
+/// every node (a generous deadline of 20 s stands for "never": the producer waits in `send` the whole time).
+pub fn rendezvous_direct(p: &Program, reference: &[BddNode]) -> Vec<(String, String)> {
+    let mut out = vec![];
+    let (ps, pr) = bounded::<BddNode>(0);
+    let prog = p.clone();
+    let ctor = CTOR.with(|c| c.get());
+    let prod = std::thread::spawn(move || {
+        CTOR.with(|c| c.set(ctor));
+        let mut b = mk_producer(ps);
+        run_program(&mut b, &prog);
+        b.nodes.clone()
+    });
+    let mut recv = mk_receiver(pr);
+    let t0 = std::time::Instant::now();
+    let mut polls = 0u64;
+    while recv.nodes.len() < reference.len() && t0.elapsed().as_secs() < 20 {
+        let want = recv.nodes.len(); // the next handle
+        let found = recv.recv(Term(want));
+        polls += 1;
+        let n = recv.nodes.len();
+        if n > reference.len() || recv.nodes[..] != reference[..n] {
+            out.push(("receiver:not-a-prefix".into(), format!("after {} polls on a rendezvous channel the receiver holds {} nodes that are not a prefix of the producer's table", polls, n)));
+            break;
+        }
+        if found != (want < n) {
+            out.push(("receiver:found-flag".into(), format!("poll for handle {} on a rendezvous channel answers {} but the receiver holds {} nodes afterwards", want, found, n)));
+            break;
+        }
+        if !found {
+            std::thread::sleep(std::time::Duration::from_micros(20));
+        }
+    }
+    if out.is_empty() && recv.nodes.len() < reference.len() {
+        out.push(("receiver:never-takes-over".into(), format!("a receiver that polled a rendezvous channel {} times in 20 s holds {} of the producer's {} nodes (the producer waits in send)", polls, recv.nodes.len(), reference.len())));
+    }
+    // let the producer go on (its sends fail from now on, which it only logs) and end
+    drop(recv);
+    match prod.join() {
+        Ok(pn) => {
+            if pn != reference {
+                out.push(("producer:nondeterministic".into(), "the producer's node table differs from its table when run alone".into()));
+            }
+        }
+        Err(_) => out.push(("producer:panic".into(), "the producer thread died".into())),
+    }
+    out
+}
+
 /// a long stream (more than 2^16 messages): polls at cut points around 65535 / 65536 and at both ends, single receiver
 /// and relay chain
 pub fn big_stream_case(pairs: usize) -> Vec<(String, String)> {
@@ -939,6 +991,31 @@ pub fn run_c19(run: &Run) {
         }
     }
     mirror_reuse_family(run);
+    // the receiver directly on a rendezvous channel, the producer on its own thread
+    {
+        let res = run.par_family(
+            &format!("{} producer programs with the receiver directly on a rendezvous channel (capacity 0), polled until it holds every node", progs.len()),
+            progs.len() as u64,
+            || 0u64,
+            |st, k| {
+                let p = &progs[k as usize];
+                *st += 1;
+                let case = json!({"type": "rendezvous-direct", "program": prog_json(p)});
+                match guard(|| rendezvous_direct(p, &refs[k as usize])) {
+                    Err(m) => run.violation("rendezvous:panic", m, case),
+                    Ok(found) => {
+                        for (kind, msg) in found {
+                            run.violation(&kind, format!("{} (program {})", msg, prog_json(p)), case.clone());
+                        }
+                    }
+                }
+            },
+            &|k| json!({"type": "rendezvous-direct", "program": prog_json(&progs[k as usize])}),
+        );
+        for st in res {
+            run.add_counts(0, st, st, st);
+        }
+    }
     // the repair step on connected stores
     let res = run.par_family(
         &format!("{} producer programs x the repair step (fix_import) on the producer / the receiver / the relay at every operation boundary", progs.len()),
@@ -1020,6 +1097,13 @@ pub fn run_c19(run: &Run) {
 }
 
 pub fn replay(c: &Value) -> Vec<(String, String)> {
+    if c["type"] == "rendezvous-direct" {
+        let p = Program { ops: c["program"].as_array().map(|a| a.iter().filter_map(op_from_json).collect()).unwrap_or_default() };
+        let mut b = Bdd::new();
+        run_program(&mut b, &p);
+        let reference = b.nodes.clone();
+        return guard(|| rendezvous_direct(&p, &reference)).unwrap_or_else(|m| vec![("rendezvous:panic".into(), m)]);
+    }
     if c["type"] == "mirror-reuse" {
         let p = Program { ops: c["program"].as_array().map(|a| a.iter().filter_map(op_from_json).collect()).unwrap_or_default() };
         let mut b = Bdd::new();
